@@ -37,7 +37,16 @@ type Solver struct {
 	log      io.Writer
 	bin      string
 	timeout  int
+	// mirror of what the solver holds, so that a query the primary solver gives up on can be
+	// put to a second solver from scratch
+	decls     []string
+	stack     [][]string
+	lastFallback bool
+	Fallbacks int // queries answered by the second solver after "unknown" from the first
 }
+
+// fallbackBin is asked once, one-shot, when the incremental solver answers unknown.
+var fallbackBin = "z3-new"
 
 var solverBin = "z3"
 
@@ -129,29 +138,91 @@ func (s *Solver) declare(t *Term) {
 	for _, n := range sortedKeys(vars) {
 		if !s.declared[n] {
 			s.declared[n] = true
-			s.send(fmt.Sprintf("(declare-const %s %s)", smtName(n), vars[n].Sort.smt()))
+			d := fmt.Sprintf("(declare-const %s %s)", smtName(n), vars[n].Sort.smt())
+			s.decls = append(s.decls, d)
+			s.send(d)
 		}
 	}
 	for _, n := range s.tf.ufOrd {
 		if !s.ufDecl[n] {
 			s.ufDecl[n] = true
+			s.decls = append(s.decls, s.tf.UFs[n])
 			s.send(s.tf.UFs[n])
 		}
 	}
 }
 
-func (s *Solver) Push() { s.send("(push 1)"); s.depth++ }
+func (s *Solver) Push() { s.send("(push 1)"); s.depth++; s.stack = append(s.stack, nil) }
 func (s *Solver) PopTo(d int) {
 	if s.depth > d {
 		s.send(fmt.Sprintf("(pop %d)", s.depth-d))
 		s.depth = d
+		if len(s.stack) > d+1 {
+			s.stack = s.stack[:d+1]
+		}
 	}
 }
 func (s *Solver) Depth() int { return s.depth }
 
 func (s *Solver) Assert(t *Term) {
 	s.declare(t)
-	s.send("(assert " + t.SMT() + ")")
+	a := "(assert " + t.SMT() + ")"
+	if len(s.stack) == 0 {
+		s.stack = append(s.stack, nil)
+	}
+	s.stack[len(s.stack)-1] = append(s.stack[len(s.stack)-1], a)
+	s.send(a)
+}
+
+// secondOpinion puts the whole current problem to the fallback solver.
+func (s *Solver) secondOpinion() Verdict {
+	v, _ := s.secondOpinionModel(nil)
+	return v
+}
+
+func (s *Solver) secondOpinionModel(names []string) (Verdict, string) {
+	if fallbackBin == "" || fallbackBin == s.bin {
+		return Unknown, ""
+	}
+	var sb strings.Builder
+	for _, d := range s.decls {
+		sb.WriteString(d + "\n")
+	}
+	for _, lv := range s.stack {
+		for _, a := range lv {
+			sb.WriteString(a + "\n")
+		}
+	}
+	sb.WriteString("(set-option :produce-models true)\n(check-sat)\n")
+	if len(names) > 0 {
+		sb.WriteString("(get-value (" + strings.Join(names, " ") + "))\n")
+	}
+	secs := s.timeout/1000 + 1
+	cmd := exec.Command(fallbackBin, fmt.Sprintf("-T:%d", secs), "-in")
+	cmd.Stdin = strings.NewReader(sb.String())
+	t0 := time.Now()
+	out, _ := cmd.CombinedOutput()
+	s.Time += time.Since(t0)
+	txt := string(out)
+	lines := strings.Split(txt, "\n")
+	for i, l := range lines {
+		switch strings.TrimSpace(l) {
+		case "sat":
+			rest := strings.Join(lines[i+1:], "\n")
+			if strings.Contains(rest, "(error") {
+				return Unknown, ""
+			}
+			s.Fallbacks++
+			return Sat, rest
+		case "unsat":
+			s.Fallbacks++
+			return Unsat, ""
+		}
+		if strings.Contains(l, "(error") {
+			return Unknown, ""
+		}
+	}
+	return Unknown, ""
 }
 
 func (s *Solver) Check() Verdict {
@@ -179,6 +250,11 @@ func (s *Solver) Check() Verdict {
 			v = Unknown
 		}
 	}
+	s.lastFallback = false
+	if v == Unknown {
+		v = s.secondOpinion()
+		s.lastFallback = v != Unknown
+	}
 	return v
 }
 
@@ -205,6 +281,21 @@ func (s *Solver) ModelWith(vars []*Term, extra ...*Term) (Verdict, map[string]st
 		return v, nil
 	}
 	m := map[string]string{}
+	if s.lastFallback {
+		// the primary solver holds no model: ask the second one for the values as well
+		var names []string
+		for _, x := range vars {
+			if s.declared[x.S] {
+				names = append(names, smtName(x.S))
+			}
+		}
+		v2, txt := s.secondOpinionModel(names)
+		if v2 != Sat {
+			return Unknown, nil
+		}
+		parseModel(txt, m)
+		return Sat, m
+	}
 	for i := 0; i < len(vars); i += 50 {
 		j := i + 50
 		if j > len(vars) {
